@@ -18,6 +18,7 @@ import (
 	"path/filepath"
 	"strings"
 	"sync"
+	"sync/atomic"
 	"time"
 
 	"github.com/jhalter/mobius/hotline"
@@ -318,6 +319,42 @@ func equalStrings(a, b []string) bool {
 	return true
 }
 
+// gateAM wraps the account store: every lookup of `login` after the first (the one Authenticate makes) parks until
+// the harness releases it, so that requests can be handled inside the login.
+type gateAM struct {
+	inner    hotline.AccountManager
+	login    string
+	mu       sync.Mutex
+	n        int
+	hit      chan int
+	release  chan struct{}
+	disabled atomic.Bool
+}
+
+func (g *gateAM) Get(login string) *hotline.Account {
+	if login == g.login && !g.disabled.Load() {
+		g.mu.Lock()
+		g.n++
+		n := g.n
+		g.mu.Unlock()
+		if n >= 2 {
+			select {
+			case g.hit <- n:
+				select {
+				case <-g.release:
+				case <-time.After(60 * time.Second):
+				}
+			case <-time.After(60 * time.Second):
+			}
+		}
+	}
+	return g.inner.Get(login)
+}
+func (g *gateAM) Create(a hotline.Account) error            { return g.inner.Create(a) }
+func (g *gateAM) Update(a hotline.Account, nl string) error { return g.inner.Update(a, nl) }
+func (g *gateAM) List() []hotline.Account                   { return g.inner.List() }
+func (g *gateAM) Delete(login string) error                 { return g.inner.Delete(login) }
+
 var discOptions = []struct {
 	name string
 	b    []byte
@@ -343,7 +380,7 @@ func discTargets(r *RNG) []hotline.AccessBitmap {
 
 func init() {
 	props["C06"] = func(x *Ctx) {
-		x.rule = "creation: every pair (creator = {create-user} ∪ {i}, requested = {j}) for i, j in 0..63 on BOTH creation requests (new-user 350, multi-user editor 349), two-user histories (an administrator renames / deletes / widens the creator's stored account through the real handlers while the creator stays logged in, then the creator creates an account), plus random pairs (requested = subset of creator ± extra bits, uniform, dense) with access fields of 0..12 bytes; after each request the account in memory and on disk (yaml parse + fresh NewYAMLAccountManager) is judged by created ⊆ creator and compared with the Lean model. disconnect: requester {22}, all, {22,23}, {} × 85 target bitmaps (zero, {23}, all, all-but-23, every single bit, random) × options {absent, 00 01, 00 02, 00 03, 00 00, 07 01, 01 00}; each on its own server, inspected 1.4 s later (connection closed?, ban list in memory and from a fresh NewBanFile, notice, reply, persistent snapshot). non-trivial = the handler reached the subset loop / the protected check; distinct = distinct (path, creator, field) / (requester, target, option)"
+		x.rule = "creation: every pair (creator = {create-user} ∪ {i}, requested = {j}) for i, j in 0..63 on BOTH creation requests (new-user 350, multi-user editor 349), two-user histories (an administrator renames / deletes / widens the creator's stored account through the real handlers while the creator stays logged in, then the creator creates an account), plus random pairs (requested = subset of creator ± extra bits, uniform, dense) with access fields of 0..12 bytes; after each request the account in memory and on disk (yaml parse + fresh NewYAMLAccountManager) is judged by created ⊆ creator and compared with the Lean model. protection acquired while logged in (set-user adds bit 23 with three sessions on the account; disconnect aimed at each session) and the login window (forced schedule: the protected user's account lookups are parked and every listed session is attacked during and right after the login, wire mode); disconnect: requester {22}, all, {22,23}, {} × 85 target bitmaps (zero, {23}, all, all-but-23, every single bit, random) × options {absent, 00 01, 00 02, 00 03, 00 00, 07 01, 01 00}; each on its own server, inspected 1.4 s later (connection closed?, ban list in memory and from a fresh NewBanFile, notice, reply, persistent snapshot). non-trivial = the handler reached the subset loop / the protected check; distinct = distinct (path, creator, field) / (requester, target, option)"
 		x.assume = []string{
 			"direct mode: handlers are called with a ClientConn built like handleNewConnection builds it; the requester's in-memory bitmap is set directly so that all 64 positions can be exercised",
 			"bcrypt at MinCost (as the code uses)",
@@ -605,6 +642,223 @@ func init() {
 			}
 			c.Dist("history/" + hist + "/" + strings.SplitN(obs, " ", 2)[0])
 			c.Nontrivial(hist + ":" + which + ":" + bmHex(session) + ":" + hx(req[:]))
+		}})
+		// an account becomes protected while several sessions are logged in under it (administrator's set-user adds
+		// cannot-be-disconnected); a disconnect request then aims at the 1st / 2nd / 3rd of those sessions
+		x.Add(&Family{Name: "protected-by-set-user", Quick: 12, Thor: 48, Run: func(c *Case) {
+			idx := tableIndex(c, 48)
+			type scen struct {
+				k       int
+				opt     int
+				protect bool
+				ts      *TS
+				conns   []*nopConn
+				sess    []*hotline.ClientConn
+				rq      *hotline.ClientConn
+				res     []hotline.Transaction
+				pan     any
+				base    hotline.AccessBitmap
+			}
+			var scens []*scen
+			for k := 0; k < 3; k++ {
+				for oi := 0; oi < 3; oi++ {
+					scens = append(scens, &scen{k: k, opt: oi, protect: idx%4 != 3})
+				}
+			}
+			opts := [][]byte{nil, {0, 1}, {0, 2}}
+			optNames := []string{"absent", "temporary", "permanent"}
+			var wg sync.WaitGroup
+			for _, sc := range scens {
+				sc.base = hotline.AccessBitmap(maskDefined(randBitmap(c.R)))
+				if sc.protect {
+					sc.base = hotline.AccessBitmap(withoutBit(sc.base, 23))
+				} else {
+					sc.base = hotline.AccessBitmap(withBit(sc.base, 23))
+				}
+				wg.Add(1)
+				go func(sc *scen) {
+					defer wg.Done()
+					ts, err := newTS(TSOpt{Direct: true, Accounts: []AcctSpec{
+						{Login: "req", Name: "req", Password: "", Access: bmOf(22)},
+						{Login: "tgt", Name: "tgt", Password: "", Access: sc.base},
+						{Login: "admin", Name: "admin", Password: "", Access: allOnes()},
+					}})
+					if err != nil {
+						return
+					}
+					sc.ts = ts
+					for i := 0; i < 3; i++ {
+						cc, nc := directClientWith(ts, "tgt", fmt.Sprintf("10.7.7.%d:5555", i+1), sc.base)
+						sc.sess, sc.conns = append(sc.sess, cc), append(sc.conns, nc)
+					}
+					sc.rq, _ = directClientWith(ts, "req", "10.0.0.1:1000", bmOf(22))
+					ad, _ := directClientWith(ts, "admin", "10.0.0.2:1000", allOnes())
+					now := hotline.AccessBitmap(withBit(sc.base, 23))
+					if !sc.protect {
+						now = hotline.AccessBitmap(withoutBit(sc.base, 23))
+					}
+					_, _, sc.pan = ts.Call(ad, mkTran(hotline.TranSetUser, 1, fld(hotline.FieldUserLogin, obf("tgt")), fld(hotline.FieldUserName, []byte("tgt")),
+						fld(hotline.FieldUserPassword, []byte{0}), fld(hotline.FieldUserAccess, now[:])))
+					if sc.pan != nil {
+						return
+					}
+					fs := []hotline.Field{fld(hotline.FieldUserID, sc.sess[sc.k].ID[:])}
+					if opts[sc.opt] != nil {
+						fs = append(fs, fld(hotline.FieldOptions, opts[sc.opt]))
+					}
+					sc.res, _, sc.pan = ts.Call(sc.rq, mkTran(hotline.TranDisconnectUser, 9, fs...))
+				}(sc)
+			}
+			wg.Wait()
+			time.Sleep(1400 * time.Millisecond)
+			for _, sc := range scens {
+				if sc.ts == nil {
+					c.Disagree("fixture", "test server could not be built")
+					continue
+				}
+				resetNotes(c)
+				c.Note("history", fmt.Sprintf("3 sessions on account tgt; set-user makes the account protected=%v; disconnect (option %s) aimed at session #%d", sc.protect, optNames[sc.opt], sc.k+1))
+				c.Note("account_before", bmHex(sc.base))
+				if sc.pan != nil {
+					c.Note("panic", fmt.Sprint(sc.pan))
+					c.Violation("disconnect-panic", "set-user / disconnect panicked")
+					sc.ts.Close()
+					continue
+				}
+				acct := sc.ts.Acct.Get("tgt")
+				if acct == nil || acct.Access.IsSet(23) != sc.protect {
+					c.Disagree("fixture-set-user", "the administrator's set-user did not change the account")
+					sc.ts.Close()
+					continue
+				}
+				ip := fmt.Sprintf("10.7.7.%d", sc.k+1)
+				if !sc.protect && !sc.conns[sc.k].IsClosed() {
+					waitFor(30*time.Second, sc.conns[sc.k].IsClosed)
+				}
+				closed := sc.conns[sc.k].IsClosed()
+				listed := sc.ts.Srv.ClientMgr.Get(sc.sess[sc.k].ID) != nil
+				banned, _ := sc.ts.Bans.IsBanned(ip)
+				diskBanned := false
+				if bf, err := mobius.NewBanFile(filepath.Join(sc.ts.Cfg, "Banlist.yaml")); err == nil {
+					diskBanned, _ = bf.IsBanned(ip)
+				}
+				rep, _ := requesterReplies(sc.res, sc.rq)
+				c.Note("closed", closed)
+				c.Note("banned", banned || diskBanned)
+				if sc.protect {
+					// the ACCOUNT is marked cannot-be-disconnected at the time of the request
+					if closed || !listed {
+						c.Violation("protected-disconnected", fmt.Sprintf("a session of an account marked cannot-be-disconnected (by set-user, while logged in) was disconnected (session #%d, option %s)", sc.k+1, optNames[sc.opt]))
+					}
+					if banned || diskBanned {
+						c.Violation("protected-banned", fmt.Sprintf("the address of a session of an account marked cannot-be-disconnected was banned (session #%d, option %s)", sc.k+1, optNames[sc.opt]))
+					}
+					if len(rep) != 1 || !isErrReply(rep[0]) {
+						c.Violation("protected-reply", "a disconnect request against a protected user is not answered with the error reply")
+					}
+				} else {
+					c.Corr("unprotected-by-set-user", fmt.Sprintf("closed=%v", closed), "closed=true", false)
+				}
+				c.Dist(fmt.Sprintf("set-user-protect/%v/session-%d", sc.protect, sc.k+1))
+				c.Nontrivial(fmt.Sprintf("sup:%v:%d:%d:%s", sc.protect, sc.k, sc.opt, bmHex(sc.base)))
+				sc.ts.Close()
+			}
+		}})
+		// the login window: a disconnect request handled while the protected user's login is still in progress
+		// (forced schedule: the account store parks the login's account lookups; during each park every session
+		// that is already listed is attacked).  Wire mode: the real handleNewConnection runs the login.
+		x.Add(&Family{Name: "login-window", Quick: 9, Thor: 36, Run: func(c *Case) {
+			idx := tableIndex(c, 36)
+			opts := [][]byte{nil, {0, 1}, {0, 2}}
+			optNames := []string{"absent", "temporary", "permanent"}
+			oi := idx % 3
+			prot := hotline.AccessBitmap(withBit(maskDefined(randBitmap(c.R)), 23))
+			ts, err := newTS(TSOpt{Accounts: []AcctSpec{
+				{Login: "prot", Name: "prot", Password: "pw", Access: prot},
+				{Login: "admin", Name: "admin", Password: "", Access: allOnes()},
+			}})
+			if err != nil {
+				c.Disagree("fixture", "test server could not be built")
+				return
+			}
+			defer ts.Close()
+			gate := &gateAM{inner: ts.Acct, login: "prot", hit: make(chan int), release: make(chan struct{})}
+			ts.Srv.AccountManager = gate
+			ad, _ := ts.DirectClient("admin", []byte("admin"), "10.0.0.2:1000")
+			c.Note("option", optNames[oi])
+			c.Note("protected_account", bmHex(prot))
+			attack := func(phase string) int {
+				n := 0
+				for _, cl := range ts.Srv.ClientMgr.List() {
+					if cl.ID == ad.ID {
+						continue
+					}
+					fs := []hotline.Field{fld(hotline.FieldUserID, cl.ID[:])}
+					if opts[oi] != nil {
+						fs = append(fs, fld(hotline.FieldOptions, opts[oi]))
+					}
+					func() {
+						defer func() { recover() }()
+						h := ts.Srv.VerifHandlers()[hotline.TranDisconnectUser]
+						t := mkTran(hotline.TranDisconnectUser, 9, fs...)
+						h(ad, &t)
+					}()
+					n++
+				}
+				c.Dist("login-window/attacks-" + phase + fmt.Sprintf("-%d", n))
+				return n
+			}
+			const ip = "10.8.8.8"
+			wc := ts.Connect(ip+":4000", nil)
+			wc.Conn.Feed(clientHandshake)
+			wc.Conn.Feed(encTran(loginTran(1, "prot", "pw")))
+			done := make(chan bool, 1)
+			go func() {
+				_, ok := wc.ReplyTo(1, 60*time.Second)
+				done <- ok
+			}()
+			during := 0
+			loggedIn := false
+		loop:
+			for {
+				select {
+				case <-gate.hit:
+					during += attack("during-login")
+					gate.release <- struct{}{}
+				case ok := <-done:
+					loggedIn = ok
+					break loop
+				case <-time.After(90 * time.Second):
+					break loop
+				}
+			}
+			gate.disabled.Store(true)
+			if !loggedIn {
+				c.Disagree("fixture-login", "the protected user's login did not complete")
+				return
+			}
+			attack("after-login")
+			time.Sleep(1500 * time.Millisecond)
+			c.Note("attacks_during_login", during)
+			closed := wc.Conn.IsClosed()
+			banned, _ := ts.Bans.IsBanned(ip)
+			listed := false
+			for _, cl := range ts.Srv.ClientMgr.List() {
+				if cl.ID != ad.ID && cl.Account != nil && cl.Account.Login == "prot" {
+					listed = true
+				}
+			}
+			c.Note("closed", closed)
+			c.Note("banned", banned)
+			if closed || !listed {
+				c.Violation("protected-disconnected", "a user whose account is marked cannot-be-disconnected was disconnected by a disconnect request handled while / right after it logged in (option "+optNames[oi]+")")
+			}
+			if banned {
+				c.Violation("protected-banned", "the address of a user whose account is marked cannot-be-disconnected was banned by a disconnect request handled while / right after it logged in (option "+optNames[oi]+")")
+			}
+			wc.Conn.EOF()
+			wc.WaitDone(10 * time.Second)
+			c.Nontrivial(fmt.Sprintf("lw:%d:%s", oi, bmHex(prot)))
 		}})
 		x.Add(&Family{Name: "disconnect", Quick: 16, Thor: 32, Run: func(c *Case) {
 			// each case: one requester kind × a slice of the target list × all options, run concurrently
